@@ -536,6 +536,8 @@ class FileIndex(Index):
                          == segment.doc_count())):
                     r = reusable[segment]
                     del reusable[segment]
+                    # The reused reader now serves this generation
+                    r._gen = generation
                     return r
                 else:
                     return SegmentReader(storage, schema, segment,
